@@ -2,7 +2,6 @@ package main
 
 import (
 	"fmt"
-	"go/token"
 	"go/types"
 	"sort"
 	"strings"
@@ -13,348 +12,444 @@ import (
 func init() {
 	register(&propDef{
 		id: "C19", run: runC19, minOblig: 12,
-		explanation: "Decides structural clauses of bcrypt_pbkdf.Key. (argument errors) Key returns an error exactly when rounds < 1, the password is empty, the salt is empty or longer than 2^20, or keyLen > 1024 — evaluated on the code over boundary values of all four quantities — and nothing is allocated or hashed on those paths; (history independence) no package-level variable that is ever written, and no sync.Pool/Map, is reachable from Key inside the module: the result is a function of the arguments alone, whatever calls preceded it; (layout) numBlocks = ceil(keyLen/32) for every keyLen 0..1024 and the buffer holds numBlocks*32 bytes; the block counter is the 4-byte big-endian block number starting at 1; per block the SHA-512 input is salt | counter for the first round and the previous 32-byte output for every further round, each round's bcryptHash takes (tmp, sha512(password), that digest), later rounds are XOR-folded into the block output and byte i of block b lands at key[i*numBlocks + b-1]; (bcryptHash) the cipher is NewSaltedCipher(shapass, shasalt), 64 rounds of ExpandKey(shasalt) then ExpandKey(shapass), the magic string is \"OxychromaticBlowfishSwatDynamite\", each 8-byte word is encrypted 64 times and every 4-byte group is byte-reversed. NOT decided: Blowfish and SHA-512 values, equality with OpenBSD's implementation on any input.",
-		assumptions: []string{"blowfish (C12) and crypto/sha512"},
+		explanation: "Decides bcrypt_pbkdf.Key against the OpenBSD algorithm modulo the primitives: Key (with everything it calls inside its package, closures and the pure helpers of encoding/binary, math/bits and slices) is interpreted abstractly — lengths, counters and indices concrete, every byte of password and salt a symbol, SHA-512 and Blowfish (NewSaltedCipher, ExpandKey, Encrypt) uninterpreted functions, memory with real aliasing — and the term of every returned byte is compared with the term the reference algorithm yields; the verdicts do not depend on how the code is split into functions, on loop forms, names, or on which equivalent library call (copy, subtle.XORBytes, binary.BigEndian, Sum512 vs streaming hash) is used. (argument errors) over boundary values of rounds, len(password), len(salt) (0, 1, 16, 2^20, 2^20+1) and keyLen (0..1025) Key returns a non-nil error and a nil key exactly when rounds < 1, the password is empty, the salt is empty or longer than 2^20, or keyLen > 1024, and otherwise keyLen bytes with a nil error; (history independence) no package-level variable that is ever written, and no sync.Pool/Map, is reachable from Key inside the module; (bcryptHash, from the term of a one-round block) the cipher is NewSaltedCipher(SHA512(password), SHA512(salt|counter)), followed by 64 times ExpandKey(salt digest) then ExpandKey(password digest), the plaintext is \"OxychromaticBlowfishSwatDynamite\", each 8-byte word is encrypted 64 times under the final state and every 4-byte group is byte-reversed; (layout) the block counter is the 4-byte big-endian block number starting at 1 for all 32 blocks, the result has keyLen bytes and byte i of block b lands at key[i*numBlocks + b-1] for 16 key lengths between 0 and 1024; (rounds) every later round hashes exactly the previous 32-byte output and is XOR-folded into the block; (salt lengths) the same equality for salt lengths 1, 16, 59..66, 100; password and salt are not written. NOT decided: Blowfish and SHA-512 values, equality with OpenBSD's implementation on concrete inputs, lengths outside the listed grids.",
+		assumptions: []string{"blowfish (C12) and crypto/sha512", "the documented contracts of copy/append/clear, crypto/subtle.XORBytes, hash.Hash (Write/Reset/Sum)"},
 	})
-	tech("C19", "finite-domain evaluation of the argument guards and layout arithmetic, global-state reachability (who-may-read) over the call graph, block-local call-order and argument-provenance rules")
+	tech("C19", "symbolic interpretation of Key over a term algebra with SHA-512 and Blowfish as uninterpreted functions, compared with the reference algorithm's terms; global-state reachability (who-may-read) over the call graph")
+}
+
+const c19Pkg = "ssh/internal/bcrypt_pbkdf"
+
+// c19Ctx carries one evaluation: the interpreter, the inputs (shared between
+// runs, checked to be unmodified at the end) and the function under test.
+type c19Ctx struct {
+	c      *Ctx
+	ev     *c19Eval
+	f      *ssa.Function
+	inputs map[string][]c19Val
+	specs  map[[4]int64][2][]c19T
+}
+
+func (x *c19Ctx) input(kind string, base c19T, n int) []c19Val {
+	k := fmt.Sprintf("%s/%d", kind, n)
+	if s, ok := x.inputs[k]; ok {
+		return s
+	}
+	s := c19Input(base, n)
+	x.inputs[k] = s
+	return s
+}
+
+// run interprets Key for the given lengths; spec is the reference result.
+func (x *c19Ctx) run(pl, sl int, rounds, keyLen int64) c19Outcome {
+	return x.ev.runKey(x.f, x.input("password", c19PwBase, pl), x.input("salt", c19SaltBase, sl), rounds, keyLen)
+}
+
+func (x *c19Ctx) spec(pl, sl int, rounds, keyLen int64) ([]c19T, []c19T) {
+	k := [4]int64{int64(pl), int64(sl), rounds, keyLen}
+	if s, ok := x.specs[k]; ok {
+		return s[0], s[1]
+	}
+	key, hs := x.ev.T.specKey(c19Ids(c19PwBase, pl), c19Ids(c19SaltBase, sl), int(rounds), int(keyLen))
+	if x.specs == nil {
+		x.specs = map[[4]int64][2][]c19T{}
+	}
+	x.specs[k] = [2][]c19T{key, hs}
+	return key, hs
+}
+
+func c19Case(pl, sl int, rounds, keyLen int64) string {
+	return fmt.Sprintf("len(password)=%d len(salt)=%d rounds=%d keyLen=%d", pl, sl, rounds, keyLen)
+}
+
+// against compares a run with the reference; "" when they agree. undec tells
+// whether the disagreement is a construct outside the model.
+func (x *c19Ctx) against(pl, sl int, rounds, keyLen int64) (o c19Outcome, why string, undec bool) {
+	o = x.run(pl, sl, rounds, keyLen)
+	id := c19Case(pl, sl, rounds, keyLen)
+	switch o.kind {
+	case "key":
+		want, _ := x.spec(pl, sl, rounds, keyLen)
+		if d := x.ev.T.diff(o.key, want); d != "" {
+			return o, id + ": " + d, false
+		}
+		return o, "", false
+	case "undecided":
+		return o, id + ": not decided, " + o.msg + c19Where(o), true
+	case "error":
+		return o, id + ": Key returns the error \"" + o.msg + "\" for valid arguments", false
+	}
+	return o, id + ": Key panics: " + o.msg + c19Where(o), false
+}
+
+func (x *c19Ctx) verdict(rule, construct, okDetail, why string, undec bool) {
+	switch {
+	case why == "":
+		x.c.ok(rule, construct, x.f, okDetail)
+	case undec:
+		x.c.undecided(rule, construct, x.f, why)
+	default:
+		x.c.fail(rule, construct, x.f, why)
+	}
 }
 
 func runC19(c *Ctx) {
-	const pkg = "ssh/internal/bcrypt_pbkdf"
-	f := c.fn(pkg, "Key")
+	f := c.fn(c19Pkg, "Key")
 	if f == nil {
 		return
 	}
-	pw, salt, rounds, keyLen := f.Params[0], f.Params[1], f.Params[2], f.Params[3]
-	// (a) error predicate
-	var mks []ssa.Instruction
-	allInstrs(f, func(in ssa.Instruction) {
-		switch x := in.(type) {
-		case *ssa.MakeSlice:
-			mks = append(mks, x)
-		case *ssa.Call:
-			if short(calleeName(&x.Call)) == "crypto/sha512.New" {
-				mks = append(mks, x)
-			}
-		}
-	})
-	bad := ""
-	rows := 0
-	for _, r := range []int64{-1, 0, 1, 2, 16} {
-		for _, pl := range []int64{0, 1, 72} {
-			for _, sl := range []int64{0, 1, 16, 1 << 20, 1<<20 + 1} {
-				for _, kl := range []int64{0, 1, 32, 33, 1024, 1025} {
-					e := newEnv()
-					e.bind(rounds, r)
-					e.bind(keyLen, kl)
-					e.bindLen(f, pw, pl)
-					e.bindLen(f, salt, sl)
-					e.solve(f)
-					wantErr := r < 1 || pl == 0 || sl == 0 || sl > 1<<20 || kl > 1024
-					work := false
-					for _, m := range mks {
-						if e.reach[m.Block()] {
-							work = true
-						}
-					}
-					okRet, errRet := false, false
-					for _, rt := range returnsOf(f) {
-						if !e.reach[rt.Block()] {
-							continue
-						}
-						if errNilness(retVal(rt, 1), rt.Block(), 0) == neverNil {
-							errRet = true
-						} else {
-							okRet = true
-						}
-					}
-					rows++
-					if wantErr && (work || okRet) || !wantErr && (errRet || !work) {
-						bad = fmt.Sprintf("rounds=%d len(password)=%d len(salt)=%d keyLen=%d: error expected=%v, but error-return reachable=%v, key-return reachable=%v, allocation/hashing reachable=%v", r, pl, sl, kl, wantErr, errRet, okRet, work)
-					}
-				}
-			}
-		}
+	if len(f.Params) != 4 {
+		c.fail("anchor", c19Pkg+".Key", f, "Key no longer takes (password, salt, rounds, keyLen)")
+		return
 	}
-	c.check(bad == "" && len(mks) >= 2, "C19.errors", "Key argument guards", f, fmt.Sprintf("%d argument combinations: error iff rounds<1 or empty password or salt length outside 1..2^20 or keyLen>1024, before any allocation", rows), bad)
-
-	// (b) history independence
+	// (a) history independence
 	c19Globals(c, f)
 
-	// (c) layout arithmetic
-	var numBlocks ssa.Value
-	var keyMk *ssa.MakeSlice
-	allInstrs(f, func(in ssa.Instruction) {
-		if m, ok := in.(*ssa.MakeSlice); ok {
-			if bo, isB := m.Len.(*ssa.BinOp); isB && bo.Op == token.MUL {
-				keyMk = m
-				numBlocks = bo.X
-				if _, isK := constInt(bo.X); isK {
-					numBlocks = bo.Y
-				}
-			}
+	x := &c19Ctx{c: c, ev: newC19Eval(c, f.Pkg), f: f, inputs: map[string][]c19Val{}}
+	// (b) argument errors
+	c19Errors(x)
+	// (c) one block, one round: what a block is made of
+	c19OneBlock(x)
+	// (d) block counter, interleaving, result length
+	c19Layout(x)
+	// (e) later rounds and their folding
+	c19Rounds(x)
+	// (f) salt lengths around the SHA-512 block size
+	c19HashLengths(x)
+	// (g) the caller's buffers
+	bad := ""
+	for k, s := range x.inputs {
+		base := c19PwBase
+		if strings.HasPrefix(k, "salt") {
+			base = c19SaltBase
 		}
-	})
-	if keyMk == nil {
-		c.fail("C19.layout", "key buffer", f, "allocation of numBlocks*blockSize bytes not found")
-	} else {
-		bad := ""
-		for kl := int64(0); kl <= 1024; kl++ {
-			e := newEnv()
-			e.bind(keyLen, kl)
-			nb, ok1 := e.eval(numBlocks)
-			ln, ok2 := e.eval(keyMk.Len)
-			if !ok1 || !ok2 || nb != (kl+31)/32 || ln != nb*32 {
-				bad = fmt.Sprintf("keyLen=%d: numBlocks=%d buffer=%d, expected %d and %d", kl, nb, ln, (kl+31)/32, (kl+31)/32*32)
+		for i, v := range s {
+			if b, ok := v.(c19Byte); !ok || c19T(b) != base+c19T(i) {
+				bad = fmt.Sprintf("byte %d of the caller's %s bytes is overwritten", i, k)
 				break
 			}
 		}
-		c.check(bad == "", "C19.layout", "numBlocks and buffer size", keyMk, "numBlocks = ceil(keyLen/32), buffer = 32*numBlocks for keyLen 0..1024", bad)
-		// interleave: store into key[idx], idx evaluated
-		okIdx := false
-		allInstrs(f, func(in ssa.Instruction) {
-			st, ok := in.(*ssa.Store)
-			if !ok {
-				return
-			}
-			ia, ok := st.Addr.(*ssa.IndexAddr)
-			if !ok || ia.X != ssa.Value(keyMk) {
-				return
-			}
-			// operands: the range index i, numBlocks, block phi
-			var leaves []ssa.Value
-			var collect func(v ssa.Value, d int)
-			collect = func(v ssa.Value, d int) {
-				if d > 6 {
-					return
-				}
-				if v == numBlocks {
-					return
-				}
-				if bo, ok := v.(*ssa.BinOp); ok {
-					if ph, isPhi := bo.X.(*ssa.Phi); isPhi && ph.Comment == "rangeindex" {
-						leaves = append(leaves, v) // the range index (phi+1)
-						return
+	}
+	c.check(bad == "" && len(x.inputs) > 0, "C19.inputs", "password and salt are only read", f, fmt.Sprintf("%d input buffers unchanged after all evaluations", len(x.inputs)), bad)
+}
+
+// c19Errors: the error predicate, on the interpreted code.
+func c19Errors(x *c19Ctx) {
+	bad, undec := "", false
+	rows := 0
+	for _, r := range []int64{-1, 0, 1, 2} {
+		for _, pl := range []int{0, 1, 72} {
+			for _, sl := range []int{0, 1, 16, 1 << 20, 1<<20 + 1} {
+				for _, kl := range []int64{0, 1, 32, 33, 1024, 1025} {
+					if sl == 1<<20 && r >= 1 && pl > 0 && kl <= 1024 && !(r == 1 && pl == 1 && kl <= 1) {
+						continue // a megabyte of salt is hashed once per block: of the valid combinations one block, one round is enough
 					}
-					collect(bo.X, d+1)
-					collect(bo.Y, d+1)
-					return
-				}
-				if _, isC := v.(*ssa.Const); !isC {
-					leaves = append(leaves, v)
+					if bad != "" {
+						continue
+					}
+					rows++
+					wantErr := r < 1 || pl == 0 || sl == 0 || sl > 1<<20 || kl > 1024
+					id := c19Case(pl, sl, r, kl)
+					o := x.run(pl, sl, r, kl)
+					if !wantErr {
+						// what the key is made of is the business of the other rules
+						switch {
+						case o.kind == "undecided":
+							bad, undec = id+": not decided, "+o.msg+c19Where(o), true
+						case o.kind == "error":
+							bad = id + ": Key returns the error \"" + o.msg + "\" for valid arguments"
+						case o.kind == "panic":
+							bad = id + ": Key panics for valid arguments: " + o.msg + c19Where(o)
+						case int64(len(o.key)) != kl:
+							bad = id + ": a key of " + itoa(int64(len(o.key))) + " bytes is returned"
+						}
+						continue
+					}
+					switch {
+					case o.kind == "undecided":
+						bad, undec = id+": not decided, "+o.msg+c19Where(o), true
+					case o.kind == "key":
+						bad = id + ": no error is returned (a key of " + itoa(int64(len(o.key))) + " bytes is)"
+					case o.kind == "panic":
+						bad = id + ": Key panics instead of returning an error: " + o.msg
+					case !o.keyNil || len(o.key) != 0:
+						bad = id + ": a non-nil key is returned together with the error"
+					}
 				}
 			}
-			collect(ia.Index, 0)
-			// identify: numBlocks (evaluates from keyLen), block (phi compared with numBlocks), i (other)
-			var blockV, iV ssa.Value
-			for _, l := range leaves {
-				if l == numBlocks {
-					continue
-				}
-				if ph, isPhi := l.(*ssa.Phi); isPhi && ph.Comment == "block" {
-					blockV = l
-				} else {
-					iV = l
-				}
+		}
+	}
+	x.verdict("C19.errors", "Key argument guards", fmt.Sprintf("%d argument combinations: error (and a nil key) iff rounds<1 or empty password or salt length outside 1..2^20 or keyLen>1024; a key of keyLen bytes and a nil error otherwise", rows), bad, undec)
+}
+
+// c19OneBlock destructures the 32 bytes derived for one block and one round.
+func c19OneBlock(x *c19Ctx) {
+	T := x.ev.T
+	const pl, sl = 3, 5
+	o, why, undec := x.against(pl, sl, 1, 32)
+	rule := "C19.bcrypt-hash"
+	if o.kind != "key" || len(o.key) != 32 {
+		if why == "" {
+			why = "the result has " + itoa(int64(len(o.key))) + " bytes"
+		}
+		for _, cn := range []string{"cipher setup", "expansion order", "magic", "encryption count", "word byte order"} {
+			x.verdict(rule, cn, "", why, undec)
+		}
+		x.verdict("C19.hash-order", "shapass = SHA-512(password)", "", why, undec)
+		x.verdict("C19.hash-order", "first round", "", why, undec)
+		return
+	}
+	bl := T.dissect(o.key)
+	if bl.why != "" {
+		// the 32 bytes are not one block of Blowfish output: say so once, under
+		// the rule it belongs to; the finer questions cannot be asked
+		if bl.mixed {
+			x.verdict("C19.layout", "one block for keyLen 32", "", bl.why, false)
+		} else {
+			x.verdict(rule, "block output", "", bl.why, false)
+		}
+		rest := "not evaluated: " + bl.why
+		for _, cn := range []string{"cipher setup", "expansion order", "magic", "encryption count", "word byte order"} {
+			x.verdict(rule, cn, "", rest, true)
+		}
+		x.verdict("C19.hash-order", "shapass = SHA-512(password)", "", rest, true)
+		x.verdict("C19.hash-order", "first round", "", rest, true)
+		return
+	}
+	// digests
+	// Every byte string that keys the cipher is classified by ROLE: "pass" is
+	// SHA-512 over exactly the password, "salt" is SHA-512 over salt | 4 bytes.
+	pwIds, saltIds := c19Ids(c19PwBase, pl), c19Ids(c19SaltBase, sl)
+	role := func(bs []c19T) string {
+		in, ok := T.digestOf(bs)
+		switch {
+		case !ok:
+			return "other"
+		case c19Same(in, pwIds):
+			return "pass"
+		case len(in) == sl+4 && c19Same(in[:sl], saltIds):
+			return "salt"
+		}
+		return "other"
+	}
+	uses := append([][]c19T{bl.initKey, bl.initSlt}, bl.expKeys...)
+	var passD, saltD []c19T
+	var other []string
+	for _, u := range uses {
+		switch role(u) {
+		case "pass":
+			passD = u
+		case "salt":
+			if saltD == nil {
+				saltD = u
 			}
-			if blockV == nil || iV == nil {
-				return
+		default:
+			if in, ok := T.digestOf(u); ok {
+				other = append(other, "SHA512("+T.seq(in, 1)+")")
+			} else {
+				other = append(other, T.seq(u, 1))
 			}
-			good := true
-			for _, kl := range []int64{32, 64, 100, 1024} {
-				for _, i := range []int64{0, 1, 31} {
-					for _, b := range []int64{1, 2, 3} {
-						e := newEnv()
-						e.bind(keyLen, kl)
-						e.bind(blockV, b)
-						e.bind(iV, i)
-						nb := (kl + 31) / 32
-						if v, ok := e.eval(ia.Index); !ok || v != i*nb+(b-1) {
-							good = false
+		}
+	}
+	bad := ""
+	switch {
+	case bl.stWhy != "":
+		bad = bl.stWhy
+	case passD == nil:
+		bad = fmt.Sprintf("nothing that keys the cipher is SHA-512 over exactly the password (it is keyed with %s)", strings.Join(c19Head(c19Uniq(other)), ", "))
+	}
+	x.verdict("C19.hash-order", "shapass = SHA-512(password)", "the password enters as SHA-512 over exactly the password bytes", bad, false)
+	bad = ""
+	switch {
+	case bl.stWhy != "":
+		bad = bl.stWhy
+	case saltD == nil:
+		bad = fmt.Sprintf("nothing that keys the cipher is SHA-512(salt | 4-byte block counter) (it is keyed with %s)", strings.Join(c19Head(c19Uniq(other)), ", "))
+	default:
+		if in, _ := T.digestOf(saltD); !c19Same(in[sl:], []c19T{0, 0, 0, 1}) {
+			bad = "the first round of block 1 hashes " + T.seq(in, 2) + ", expected salt | 0x00000001 (the big-endian 32-bit block number, starting at 1)"
+		}
+	}
+	x.verdict("C19.hash-order", "first round", "the salt enters as SHA-512(salt | 00000001) for the first block", bad, false)
+	// cipher set-up
+	bad = ""
+	switch {
+	case bl.stWhy != "":
+		bad = bl.stWhy
+	case role(bl.initKey) == "salt" && role(bl.initSlt) == "pass":
+		bad = "NewSaltedCipher is called with key and salt swapped: key=SHA512(salt|counter), salt=SHA512(password)"
+	case role(bl.initKey) != "pass" || role(bl.initSlt) != "salt":
+		bad = "the Blowfish state is initialised with key=" + T.seq(bl.initKey, 2) + ", salt=" + T.seq(bl.initSlt, 2) + "; expected key=SHA512(password), salt=SHA512(salt|counter)"
+	}
+	x.verdict(rule, "cipher setup", "NewSaltedCipher(shapass, shasalt)", bad, false)
+	// expansion order
+	bad = ""
+	if bl.stWhy != "" {
+		bad = bl.stWhy
+	} else if len(bl.expKeys) != 128 {
+		bad = fmt.Sprintf("%d key expansions, expected 64 rounds of ExpandKey(shasalt), ExpandKey(shapass)", len(bl.expKeys))
+	} else {
+		for i, k := range bl.expKeys {
+			want, nm := saltD, "the salt digest"
+			if i%2 == 1 {
+				want, nm = passD, "the password digest"
+			}
+			if want == nil || !c19Same(k, want) {
+				bad = fmt.Sprintf("expansion #%d uses %s, expected %s (each round: ExpandKey(shasalt) then ExpandKey(shapass))", i+1, T.seq(k, 2), nm)
+				break
+			}
+		}
+	}
+	x.verdict(rule, "expansion order", "64 rounds, each ExpandKey(shasalt) then ExpandKey(shapass)", bad, false)
+	// plaintext, encryption count, byte order — per 8-byte word
+	badMagic, badCount, badOrder := "", "", ""
+	for w := 0; w < 4; w++ {
+		e := bl.enc[8*w]
+		ch := bl.chains[e]
+		var wantPlain []c19T
+		for i := 0; i < 8; i++ {
+			wantPlain = append(wantPlain, c19T(c19Magic[8*w+i]))
+		}
+		if badMagic == "" && !c19Same(ch.plain, wantPlain) {
+			badMagic = fmt.Sprintf("word %d is the encryption of %s, expected %q", w, T.seq(ch.plain, 1), c19Magic[8*w:8*w+8])
+		}
+		if badCount == "" && (ch.depth != 64 || !ch.straight || ch.state != bl.state) {
+			badCount = fmt.Sprintf("word %d is encrypted %d times (same state throughout: %v), expected 64 times under the expanded state", w, ch.depth, ch.straight && ch.state == bl.state)
+		}
+		for j := 8 * w; j < 8*w+8 && badOrder == ""; j++ {
+			wantPos := (j%8)/4*4 + 3 - j%4
+			if bl.enc[j] != e || bl.pos[j] != wantPos {
+				badOrder = fmt.Sprintf("output byte %d is byte %d of its cipher block%s, expected byte %d (every 4-byte group reversed)", j, bl.pos[j], map[bool]string{true: "", false: " (of another word)"}[bl.enc[j] == e], wantPos)
+			}
+		}
+	}
+	x.verdict(rule, "magic", "the plaintext is the 32-byte magic string", badMagic, false)
+	x.verdict(rule, "encryption count", "each of the 4 words is encrypted 64 times under the fully expanded state", badCount, false)
+	x.verdict(rule, "word byte order", "every 4-byte group is reversed", badOrder, false)
+	if why != "" { // the parts agree but the whole does not: report it
+		x.verdict(rule, "block", "", why, undec)
+	}
+}
+
+// c19Layout: counter bytes of all 32 blocks, interleaving and result length.
+func c19Layout(x *c19Ctx) {
+	T := x.ev.T
+	const pl, sl = 3, 5
+	o, why, undec := x.against(pl, sl, 1, 1024)
+	bad := ""
+	if o.kind != "key" || len(o.key) != 1024 {
+		bad = why
+		if bad == "" {
+			bad = "the result has " + itoa(int64(len(o.key))) + " bytes, expected 1024"
+		}
+	} else {
+		// the counters that occur, whatever position the blocks are stored at
+		seen := map[string]bool{}
+		for _, t := range o.key {
+			var ctr []c19T
+			if n := T.get(t); n != nil && n.op == "B" {
+				if e := T.get(n.args[0]); e != nil && e.op == "E" {
+					st := T.chain(n.args[0]).state
+					for {
+						sn := T.get(st)
+						if sn == nil || sn.op != "X" {
+							break
+						}
+						st = sn.args[0]
+					}
+					if sn := T.get(st); sn != nil && sn.op == "I" {
+						k, s := c19SplitInit(sn.args)
+						for _, cand := range [][]c19T{s, k} {
+							if in, ok := T.digestOf(cand); ok && ctr == nil && len(in) == sl+4 && c19Same(in[:sl], c19Ids(c19SaltBase, sl)) {
+								ctr = in[sl:]
+							}
 						}
 					}
 				}
 			}
-			if good {
-				okIdx = true
+			if ctr == nil {
+				bad = "a key byte is " + T.desc(t, 2) + ", from which no block counter can be read"
+				break
 			}
-		})
-		c.check(okIdx, "C19.layout", "output interleaving", f, "byte i of block b is stored at key[i*numBlocks + b-1]", "block output bytes are not interleaved as key[i*numBlocks + (block-1)]")
-		// returned slice key[:keyLen]
-		okRet := false
-		for _, r := range returnsOf(f) {
-			if sl, ok := retVal(r, 0).(*ssa.Slice); ok && sl.X == ssa.Value(keyMk) && sl.Low == nil && sl.High == ssa.Value(keyLen) {
-				okRet = true
+			seen[T.seq(ctr, 0)] = true
+		}
+		if bad == "" {
+			var miss []string
+			for b := 1; b <= 32; b++ {
+				k := fmt.Sprintf("0x%08x", b)
+				if !seen[k] {
+					miss = append(miss, k)
+				}
+				delete(seen, k)
+			}
+			if len(miss) > 0 || len(seen) > 0 {
+				var extra []string
+				for k := range seen {
+					extra = append(extra, k)
+				}
+				sort.Strings(extra)
+				bad = fmt.Sprintf("the block counter is not the big-endian 32-bit block number starting at 1: counters %v are used instead of %v", c19Head(extra), c19Head(miss))
 			}
 		}
-		c.check(okRet, "C19.layout", "result", f, "returns key[:keyLen]", "the result is not the first keyLen bytes of the interleaved buffer")
 	}
-	// counter bytes: stores into cnt[0..3] evaluate to the big-endian bytes of block; block starts at 1
-	var blockPhi *ssa.Phi
-	allInstrs(f, func(in ssa.Instruction) {
-		if ph, ok := in.(*ssa.Phi); ok && ph.Comment == "block" {
-			blockPhi = ph
+	x.verdict("C19.layout", "block counter encoding", "32 blocks hash salt | 00000001 .. salt | 00000020 (4-byte big-endian, first block 1)", bad, undec && bad == why)
+	// interleaving and length over key lengths
+	bad = why
+	n := 1
+	for _, kl := range []int64{0, 1, 31, 32, 33, 63, 64, 65, 96, 100, 255, 256, 257, 1000, 1023} {
+		if bad != "" {
+			break
 		}
-	})
-	okCnt := blockPhi != nil
-	if okCnt {
-		first := false
-		for _, e := range blockPhi.Edges {
-			if k, ok := constInt(e); ok && k == 1 {
-				first = true
-			}
-		}
-		e := newEnv()
-		e.bind(blockPhi, 0x01020304)
-		got := map[int64]int64{}
-		var cntBase ssa.Value
-		allInstrs(f, func(in ssa.Instruction) {
-			st, ok := in.(*ssa.Store)
-			if !ok {
-				return
-			}
-			ia, ok := st.Addr.(*ssa.IndexAddr)
-			if !ok {
-				return
-			}
-			k, isK := constInt(ia.Index)
-			v, okv := e.eval(st.Val)
-			if isK && okv && dependsOn(st.Val, blockPhi, 4) {
-				got[k] = v
-				cntBase = ia.X
-			}
-		})
-		okCnt = first && len(got) == 4 && got[0] == 1 && got[1] == 2 && got[2] == 3 && got[3] == 4
-		c.check(okCnt, "C19.layout", "block counter encoding", f, "4-byte big-endian block number, first block 1", fmt.Sprintf("the block counter is not the big-endian 32-bit block number starting at 1 (bytes for 0x01020304: %v, starts at 1: %v)", got, first))
-		c19HashLengths(c)
-		// the order/provenance rule below assumes the streaming form
-		// (h.Write(salt); h.Write(cnt); h.Sum): it is run only when that form is present
-		if len(callsNamed(f, "crypto/sha512.New")) == 1 {
-			c19HashOrder(c, f, pw, salt, cntBase)
-		}
-	} else {
-		c.fail("C19.layout", "block counter encoding", f, "block loop variable not found")
+		n++
+		_, bad, undec = x.against(pl, sl, 1, kl)
 	}
-	c19BcryptHash(c, pkg)
+	x.verdict("C19.layout", "output interleaving", fmt.Sprintf("%d key lengths 0..1024: the result has keyLen bytes, byte i of block b is key[i*ceil(keyLen/32) + b-1]", n), bad, undec)
 }
 
-func c19HashOrder(c *Ctx, f *ssa.Function, pw, salt ssa.Value, cnt ssa.Value) {
-	// h: result of sha512.New
-	var h ssa.Value
-	for _, ci := range callsNamed(f, "crypto/sha512.New") {
-		h = callValue(ci)
-	}
-	if h == nil {
-		c.fail("C19.hash-order", "sha512", f, "sha512.New not found")
-		return
-	}
-	type ev struct {
-		m   string
-		arg ssa.Value
-		in  *ssa.Call
-	}
-	perBlock := map[*ssa.BasicBlock][]ev{}
-	var blocks []*ssa.BasicBlock
-	allInstrs(f, func(in ssa.Instruction) {
-		cl, ok := in.(*ssa.Call)
-		if !ok || !cl.Call.IsInvoke() || cl.Call.Value != h {
-			return
-		}
-		var a ssa.Value
-		if len(cl.Call.Args) == 1 {
-			a = cl.Call.Args[0]
-		}
-		if _, seen := perBlock[cl.Block()]; !seen {
-			blocks = append(blocks, cl.Block())
-		}
-		perBlock[cl.Block()] = append(perBlock[cl.Block()], ev{cl.Call.Method.Name(), a, cl})
-	})
-	sort.Slice(blocks, func(i, j int) bool { return blocks[i].Index < blocks[j].Index })
-	// tmp: first argument of bcryptHash
-	bh := callsNamed(f, "ssh/internal/bcrypt_pbkdf.bcryptHash")
-	if len(bh) != 2 {
-		c.fail("C19.hash-order", "bcryptHash calls", f, fmt.Sprintf("expected 2 calls (first round, later rounds), found %d", len(bh)))
-		return
-	}
-	tmp := bh[0].Common().Args[0]
-	shapass := bh[0].Common().Args[1]
-	// shapass = h.Sum(nil) after h.Write(password)
-	okPass := false
-	if sp, ok := shapass.(*ssa.Call); ok && sp.Call.IsInvoke() && sp.Call.Value == h && sp.Call.Method.Name() == "Sum" && isNilConst(sp.Call.Args[0]) {
-		evs := perBlock[sp.Block()]
-		if len(evs) >= 2 && evs[0].m == "Write" && evs[0].arg == pw && evs[1].in == sp {
-			okPass = true
+func c19Uniq(s []string) []string {
+	seen := map[string]bool{}
+	var out []string
+	for _, v := range s {
+		if !seen[v] {
+			seen[v] = true
+			out = append(out, v)
 		}
 	}
-	c.check(okPass, "C19.hash-order", "shapass = SHA-512(password)", f, "the password digest is SHA-512 over exactly the password", "the password digest is not SHA-512(password)")
-	seqOf := func(call ssa.CallInstruction) string {
-		var toks []string
-		for _, e := range perBlock[call.Block()] {
-			if !precedes(e.in, call) && ssa.Instruction(e.in) != call.Common().Args[2].(ssa.Instruction) {
-				continue
-			}
-			a := ""
-			switch {
-			case e.arg == nil:
-			case e.arg == salt:
-				a = "salt"
-			case e.arg == pw:
-				a = "password"
-			case e.arg == tmp:
-				a = "tmp"
-			case cnt != nil && e.arg == cnt:
-				a = "counter"
-			default:
-				a = "buf"
-			}
-			toks = append(toks, e.m+"("+a+")")
-		}
-		return strings.Join(toks, " ")
+	return out
+}
+
+func c19Head(s []string) []string {
+	if len(s) > 4 {
+		return append(append([]string(nil), s[:4]...), "…")
 	}
-	s0, s1 := seqOf(bh[0]), seqOf(bh[1])
-	okArgs := func(ci ssa.CallInstruction) bool {
-		a := ci.Common().Args
-		sm, ok := a[2].(*ssa.Call)
-		return a[0] == tmp && a[1] == shapass && ok && sm.Call.IsInvoke() && sm.Call.Value == h && sm.Call.Method.Name() == "Sum"
+	return s
+}
+
+// c19Rounds: rounds 2 and 3, one and two blocks.
+func c19Rounds(x *c19Ctx) {
+	T := x.ev.T
+	badH, badX := "", ""
+	undecH, undecX := false, false
+	n := 0
+	for _, cs := range [][2]int64{{2, 32}, {3, 32}, {3, 64}, {5, 33}} {
+		if badH != "" || badX != "" {
+			break
+		}
+		n++
+		o, why, undec := x.against(3, 5, cs[0], cs[1])
+		id := c19Case(3, 5, cs[0], cs[1])
+		if o.kind != "key" {
+			badH, undecH, badX, undecX = why, undec, why, undec
+			break
+		}
+		_, wantH := x.spec(3, 5, cs[0], cs[1])
+		if d := T.hashDiff(c19HashNodes(o.trace), wantH); d != "" {
+			badH = id + ": " + d + " (every later round hashes the previous 32-byte output)"
+		}
+		badX, undecX = why, undec
 	}
-	c.check(strings.HasSuffix(s0, "Reset() Write(salt) Write(counter) Sum(buf)") && okArgs(bh[0]), "C19.hash-order", "first round", bh[0], "SHA-512(salt | counter) -> bcryptHash(tmp, shapass, digest)", "first round hashes ["+s0+"], expected Reset Write(salt) Write(counter) Sum and bcryptHash(tmp, shapass, digest)")
-	c.check(s1 == "Reset() Write(tmp) Sum(buf)" && okArgs(bh[1]), "C19.hash-order", "later rounds", bh[1], "SHA-512(previous output) -> bcryptHash(tmp, shapass, digest)", "later rounds hash ["+s1+"], expected Reset Write(tmp) Sum and bcryptHash(tmp, shapass, digest)")
-	// the second call sits in a loop from 2 to rounds
-	okLoop := innermostLoopHeader(bh[1].Block()) != nil && innermostLoopHeader(bh[1].Block()) != innermostLoopHeader(bh[0].Block())
-	c.check(okLoop, "C19.hash-order", "round loop", bh[1], "later rounds are inside their own loop within the block loop", "the later-round hashing is not in a nested round loop")
-	// XOR folding: out[j] ^= tmp[j]
-	okXor := false
-	allInstrs(f, func(in ssa.Instruction) {
-		st, ok := in.(*ssa.Store)
-		if !ok {
-			return
-		}
-		bo, ok := st.Val.(*ssa.BinOp)
-		if !ok || bo.Op != token.XOR {
-			return
-		}
-		dst, ok := st.Addr.(*ssa.IndexAddr)
-		if !ok {
-			return
-		}
-		lx, okx := bo.X.(*ssa.UnOp)
-		ly, oky := bo.Y.(*ssa.UnOp)
-		if !okx || !oky {
-			return
-		}
-		ax, okx := lx.X.(*ssa.IndexAddr)
-		ay, oky := ly.X.(*ssa.IndexAddr)
-		if !okx || !oky {
-			return
-		}
-		if ax.X == dst.X && ay.X == tmp && ax.Index == dst.Index && ay.Index == dst.Index {
-			okXor = true
-		}
-		if ay.X == dst.X && ax.X == tmp && ax.Index == dst.Index && ay.Index == dst.Index {
-			okXor = true
-		}
-	})
-	c.check(okXor, "C19.hash-order", "XOR folding", f, "out[j] ^= tmp[j] for every later round", "later rounds are not XOR-folded into the block output")
+	x.verdict("C19.hash-order", "later rounds", fmt.Sprintf("%d (rounds, keyLen) cases: the SHA-512 computations are exactly password, salt|counter per block, previous output per later round", n), badH, undecH)
+	x.verdict("C19.hash-order", "XOR folding", fmt.Sprintf("%d (rounds, keyLen) cases: a block is the XOR of the outputs of all its rounds", n), badX, undecX)
 }
 
 func c19Globals(c *Ctx, root *ssa.Function) {
@@ -413,72 +508,4 @@ func c19Globals(c *Ctx, root *ssa.Function) {
 		detail = offenders[0]
 	}
 	c.check(len(offenders) == 0 && n >= 2, "C19.history-independent", "Key reads no mutable package state", root, fmt.Sprintf("%d module functions reachable from Key use only never-written package variables (constant tables)", n), "the derived key can depend on earlier calls: "+detail)
-}
-
-func c19BcryptHash(c *Ctx, pkg string) {
-	f := c.fn(pkg, "bcryptHash")
-	if f == nil {
-		return
-	}
-	out, shapass, shasalt := f.Params[0], f.Params[1], f.Params[2]
-	nsc := callsNamed(f, "blowfish.NewSaltedCipher")
-	ok := len(nsc) == 1 && nsc[0].Common().Args[0] == ssa.Value(shapass) && nsc[0].Common().Args[1] == ssa.Value(shasalt)
-	c.check(ok, "C19.bcrypt-hash", "cipher setup", f, "NewSaltedCipher(shapass, shasalt)", "the Blowfish state is not initialised with key=shapass, salt=shasalt")
-	ek := callsNamed(f, "blowfish.ExpandKey")
-	ok = len(ek) == 2 && ek[0].Block() == ek[1].Block() && precedes(ek[0], ek[1]) && ek[0].Common().Args[0] == ssa.Value(shasalt) && ek[1].Common().Args[0] == ssa.Value(shapass) && innermostLoopHeader(ek[0].Block()) != nil
-	c.check(ok, "C19.bcrypt-hash", "expansion order", f, "each round: ExpandKey(shasalt) then ExpandKey(shapass)", "a round does not expand with the salt digest first and the password digest second")
-	// loop bounds: constants 64 (rounds), 64 (encryptions), 32 (words)
-	consts := map[int64]int{}
-	allInstrs(f, func(in ssa.Instruction) {
-		if bo, ok := in.(*ssa.BinOp); ok && bo.Op == token.LSS {
-			if k, isK := constInt(bo.Y); isK {
-				consts[k]++
-			}
-		}
-	})
-	c.check(consts[64] == 2 && consts[32] == 2, "C19.bcrypt-hash", "loop bounds", f, "64 expansion rounds; 64 encryptions of each of the 4 words; 8 byte-swaps over 32 bytes", fmt.Sprintf("loop bounds differ from 64/64/32/32: %v", consts))
-	m, _ := c.bytesGlobal(pkg, "magic")
-	c.check(m == "OxychromaticBlowfishSwatDynamite", "C19.bcrypt-hash", "magic", f, "32-byte magic string", "the magic plaintext differs from OpenBSD's")
-	okCopy := false
-	for _, ci := range callsNamed(f, "builtin:copy") {
-		if ci.Common().Args[0] == ssa.Value(out) && isGlobalLoad(ci.Common().Args[1], "magic") {
-			okCopy = true
-		}
-	}
-	c.check(okCopy, "C19.bcrypt-hash", "plaintext", f, "out starts as the magic string", "the encrypted block does not start from the magic string")
-	// byte reversal: stores out[i+k] = load out[i+3-k]
-	pairs := map[[2]int64]bool{}
-	off := func(v ssa.Value) (int64, bool) {
-		ia, ok := v.(*ssa.IndexAddr)
-		if !ok || ia.X != ssa.Value(out) {
-			return 0, false
-		}
-		switch x := ia.Index.(type) {
-		case *ssa.Phi:
-			return 0, true
-		case *ssa.BinOp:
-			if k, isK := constInt(x.Y); isK && x.Op == token.ADD {
-				if _, isPhi := x.X.(*ssa.Phi); isPhi {
-					return k, true
-				}
-			}
-		}
-		return 0, false
-	}
-	allInstrs(f, func(in ssa.Instruction) {
-		st, ok := in.(*ssa.Store)
-		if !ok {
-			return
-		}
-		d, okd := off(st.Addr)
-		ld, isL := st.Val.(*ssa.UnOp)
-		if !okd || !isL {
-			return
-		}
-		s, oks := off(ld.X)
-		if oks {
-			pairs[[2]int64{d, s}] = true
-		}
-	})
-	c.check(pairs[[2]int64{0, 3}] && pairs[[2]int64{1, 2}] && pairs[[2]int64{2, 1}] && pairs[[2]int64{3, 0}], "C19.bcrypt-hash", "word byte order", f, "every 4-byte group is reversed", fmt.Sprintf("the final byte swap is not a reversal of each 4-byte group: %v", pairs))
 }
